@@ -40,7 +40,7 @@ theorem diffStep_eq (fs : List Factor) (v : String) (h : Term.WF fs) :
   generalize fs.filter (fun f => f.expr == v) = l at hl ⊢
   match l, hl with
   | [], _ => rfl
-  | [x], _ => rfl
+  | [x], _ => simp [differentiateFactors]
   | _ :: _ :: _, hl => simp at hl
 
 theorem diffLoop_eq (wrt : List String) : ∀ (fs : List Factor), Term.WF fs →
